@@ -44,11 +44,11 @@ def glinesText : List GLine → List Nat
 
 /-- the lines are individually good, a blank owner repeats the previous line's owner, and an omitted TTL is the
 `$TTL` default `d` -/
-def LinesOK (zo : Name) (rel gfix : Bool) : Option Name → Option Nat → List GLine → Prop
+def LinesOK (co zo : Name) (rel gfix : Bool) : Option Name → Option Nat → List GLine → Prop
   | _, _, [] => True
   | ln, d, l :: rest =>
-    l.Good zo rel gfix ∧ (l.owner = none → ln = some l.n) ∧ (l.hdr.hasTTL = false → d = some l.ttl) ∧
-    LinesOK zo rel gfix (some l.n) d rest
+    l.Good co zo rel gfix ∧ (l.owner = none → ln = some l.n) ∧ (l.hdr.hasTTL = false → d = some l.ttl) ∧
+    LinesOK co zo rel gfix (some l.n) d rest
 
 def traceOfG : List GLine → PState → Trace
   | [], r => .done r
@@ -68,11 +68,11 @@ theorem finalStateG_zoneOrigin (ls : List GLine) (r : PState) : (finalStateG ls 
     rw [ih]
     exact (afterG_fields r l (glinesText rest)).2.2.1
 
-theorem parseTrace_G (ls : List GLine) (r : PState) (zo : Name) (fuel : Nat) (hf : ls.length < fuel)
-    (hco : r.currentOrigin = some zo) (hzo : r.zoneOrigin = some zo)
+theorem parseTrace_G (ls : List GLine) (r : PState) (co zo : Name) (fuel : Nat) (hf : ls.length < fuel)
+    (hco : r.currentOrigin = some co) (hzo : r.zoneOrigin = some zo)
     (htok : r.tok = after 0 false (glinesText ls)) (d : Option Nat)
     (hd : ∀ d', d = some d' → r.defaultTTLKnown = true ∧ r.defaultTTL = d')
-    (hok : LinesOK zo r.relativize r.gfix r.lastName d ls) :
+    (hok : LinesOK co zo r.relativize r.gfix r.lastName d ls) :
     parseTrace fuel r = traceOfG ls r := by
   induction ls generalizing r fuel with
   | nil =>
@@ -90,7 +90,7 @@ theorem parseTrace_G (ls : List GLine) (r : PState) (zo : Name) (fuel : Nat) (hf
         intro hh
         obtain ⟨k1, k2⟩ := hd l.ttl (h3 hh)
         simp [PState.inheritedTTL, k1, k2]
-      have hstep := lineStep_G r l (glinesText rest) zo hco hzo (by simpa [glinesText] using htok) h1
+      have hstep := lineStep_G r l (glinesText rest) co zo hco hzo (by simpa [glinesText] using htok) h1
         (fun ho => h2 ho) hinh
       simp only [parseTrace, traceOfG, hstep]
       obtain ⟨f1, f2, f3, f4, f5, f6, f7⟩ := afterG_fields r l (glinesText rest)
